@@ -311,13 +311,8 @@ def classify(pat):
 
 
 def attribute(classes, r_hy):
-    """which recorded construct a disagreement is attributed to: the two that make compile() reject the pattern
-    when the Hy side was rejected, the unmangled class keyword otherwise"""
-    rejecting = sorted(classes & {"string-literal-None-True-False", "star-wildcard-in-sequence"})
-    if r_hy == "Rejected":
-        return rejecting[0] if rejecting else None
-    if "class-pattern-keyword-not-mangled" in classes:
-        return "class-pattern-keyword-not-mangled"
+    """the three constructs recorded here were repaired (7ce654c, 05b9a7b, 24b6ab7): nothing is attributed any more,
+    every disagreement is a violation; the class names only label the input distribution"""
     return None
 
 
@@ -418,8 +413,6 @@ def match_phase(chk, hy, env, n_forms, depth):
                 arg = bn[0] if bn else "s"
                 guard = (g[0].format(unmangle(arg)), g[1].format(arg), g[2])
             cases.append((pat, guard, bn))
-        if any(classify(p) for p, _, _ in cases):
-            continue          # the three recorded pattern defects are judged in the pattern phase
         hy_cases, py_cases = [], []
         for i, (pat, guard, bn) in enumerate(cases):
             body_hy = "[%d %s]" % (i, " ".join(unmangle(n) for n in bn))
@@ -538,6 +531,29 @@ def structure_phase(chk, hy, env, batch, n_forms):
                          repr(model), repr(real))
 
 
+def load_corpus(hy):
+    import json
+    import os
+    path = os.path.join(vlib.VERIF, "corpus", "C08", "fixed-patterns.json")
+    out = []
+
+    def tup(x):
+        return tuple(tup(y) for y in x) if isinstance(x, list) and x and isinstance(x[0], str) and x[0] in (
+            "lit", "sym", "or", "value", "seq", "star", "map", "class", "kw", "as") else (
+            [tup(y) for y in x] if isinstance(x, list) else x)
+
+    def val(x):
+        if isinstance(x, dict) and "Pt" in x:
+            return P.Pt(**x["Pt"])
+        return x
+    for e in json.load(open(path)):
+        pat = tup(e["pattern"])
+        if pat[0] == "class":
+            pat = (pat[0], pat[1], pat[2], [(k, q) for k, q in pat[3]])
+        out.append((pat, val(e["subject"]), e))
+    return out
+
+
 def run_all(chk, hy, model_ok, thorough):
     rng = chk.rng
     env = P.make_module(hy)
@@ -551,9 +567,18 @@ def run_all(chk, hy, model_ok, thorough):
                 "guards compiling to statements). Non-trivial = compound pattern" % depth)
     cases = []
     seen = set()
-    fixed = [("lit", "str", "None"), ("seq", "list", [("sym", "n1"), ("star", "_")]),
-             ("class", ["Pt"], [], [("a-b", ("lit", "int", 1))]), ("class", ["Pt"], [("lit", "int", 1)], [("q", ("sym", "n1"))])]
-    pats = list(fixed)
+    # corpus first: the minimised reproducers of the defects repaired by fix: commits (see known_findings.json)
+    corpus = load_corpus(hy)
+    for pat, subject, entry in corpus:
+        seen.add(P.pat_hy(pat))
+        cases.append((pat, [subject, mutate_value(subject, rng, hy)]))
+        st_hy, src_hy = build_hy(hy, env, pat)
+        got = run_pattern(st_hy, subject, hy)
+        chk.count("corpus")
+        if (got[0] if isinstance(got, tuple) else got) != entry["expect"]:
+            chk.fail("corpus", {"id": entry["id"], "fixed_by": entry["commit"], "form": entry["hy"], "pattern": P.pat_hy(pat)},
+                     repr(got), entry["expect"], "regression of a repaired defect: hy.eval of " + entry["hy"])
+    pats = [("class", ["Pt"], [("lit", "int", 1)], [("q", ("sym", "n1"))])]
     while len(pats) < n_pat:
         pats.append(gen_pattern(rng, rng.randrange(0, depth + 1), Names(rng)))
     for pat in pats:
